@@ -221,6 +221,10 @@ def run(ctx, chk):
         an.no_overrides(chk, bio, "I-override", "SeqSlice", "std::borrow::ToOwned", r"^seq::slice::SeqSlice<A>$", ("to_owned",))
         # ---- I-align over constructors; independence of copies ----
         seqctor.check(chk, cfg, "I-align")
+    import core as _core
+    for cfg in ctx.configs():
+        chk.cfg = cfg.name
+        _core.import_codec_core(chk, cfg)      # the symbols' own tables (C05)
     chk.floor("mutator rows over all configurations", nrows, 8 * len(chk.configs))
 
 
